@@ -33,6 +33,10 @@ _serve = {}
 
 def _patched_open(self, *a, **kw):
     key = str(self)
+    if key in _serve and _serve[key] == "real":
+        f = _real_open(self, *a, **kw)       # a REAL file object (has fileno(), can be mmapped); only tracked
+        _opened.append(f)
+        return f
     if key in _serve:
         data, fail_at = _serve[key]
         f = FaultyFile(data, fail_at)
@@ -65,7 +69,31 @@ def one_load(data, flag, mode, fail_at=None, chunk_fail=None):
         iff.Chunk = counting_chunk
     handle = None
     try:
-        if mode == "path":
+        if mode == "realpath":
+            import tempfile
+
+            fd, name = tempfile.mkstemp(prefix="rv-c18-", suffix=".sunvox")
+            os.write(fd, data)
+            os.close(fd)
+            _serve[name] = "real"
+            del _opened[:]
+            pathlib.Path.open = _patched_open
+            try:
+                read_sunvox_file(name if len(data) % 2 else pathlib.Path(name))
+                outcome = "returned"
+            except BaseException as e:
+                outcome = "raised:" + type(e).__name__
+            finally:
+                pathlib.Path.open = _real_open
+                _serve.pop(name, None)
+                os.unlink(name)
+            handle = _opened[-1] if _opened else None
+            if handle is None:
+                problems.append(("path-not-opened-through-Path.open", {}))
+            elif not handle.closed:
+                problems.append(("library-opened-file-left-open", {"outcome": outcome}))
+                handle.close()
+        elif mode == "path":
             name = "/nonexistent/rv-verif-c18.sunvox"
             _serve[name] = (data, fail_at)
             del _opened[:]
@@ -113,7 +141,7 @@ def one_load(data, flag, mode, fail_at=None, chunk_fail=None):
     finally:
         E.RAISE_CONTROLLER_VALUE_ERRORS = True
     _ = E_after
-    return outcome, problems, handle.calls if handle is not None else {}, nchunks[0]
+    return outcome, problems, getattr(handle, "calls", {}) if handle is not None else {}, nchunks[0]
 
 
 def plans_for(data, every_byte):
@@ -211,7 +239,7 @@ def _task(t):
     outcomes = set()
     for plan in plans:
         for flag in (True, False):
-            for mode in ("fileobj", "path"):
+            for mode in ("fileobj", "path") + (("realpath",) if plan[0] in ("none", "trunc", "styp", "cval", "nested-trunc") else ()):
                 outcome, vs = run_plan(rel, data, plan, flag, mode)
                 r["evals"] += 1
                 C.count(r, outcome.split(":")[0])
